@@ -518,7 +518,15 @@ func (a *appGenerator) makeCodegenApp() (GenApp, error) {
 		basePath = sw.BasePath
 	}
 
-	jsonb, _ := json.MarshalIndent(a.SpecDoc.OrigSpec(), "", "  ")
+	origSpec := a.SpecDoc.OrigSpec()
+	if a.GenOpts != nil && a.GenOpts.FlattenOpts != nil && a.GenOpts.FlattenOpts.Expand && a.GenOpts.Spec != "" {
+		// with spec expansion the document has been reloaded from its expanded form, which it now
+		// reports as its original: get back to the input document for the embedded original spec
+		if reloaded, err := loads.Spec(a.GenOpts.Spec); err == nil {
+			origSpec = reloaded.OrigSpec()
+		}
+	}
+	jsonb, _ := json.MarshalIndent(origSpec, "", "  ")
 	flatjsonb, _ := json.MarshalIndent(a.SpecDoc.Spec(), "", "  ")
 
 	return GenApp{
